@@ -313,6 +313,64 @@ func c08(run *ev.Run, tier string) {
 			}
 		}
 	}
+	// one parsed configuration, settings obtained for format X (which has an
+	// override block) and then for format Y: Y's per-packager configuration
+	// entries - listed before X's - are still registered in Y's package
+	for _, x := range formats {
+		for _, y := range formats {
+			if x == y {
+				continue
+			}
+			s := base()
+			mkc := func(name, typ, tag string) *gen.Content {
+				dst := "/etc/typ/" + name
+				return &gen.Content{Type: typ, Packager: tag, Src: src, Dst: dst, Exp: []gen.Expect{{Dst: dst, Kind: "file", Src: src, Node: node}}}
+			}
+			s.Contents = append(s.Contents,
+				mkc("for-y-noreplace.conf", "config|noreplace", y),
+				mkc("for-y.conf", "config", y),
+				mkc("for-x.conf", "config", x),
+				mkc("common.conf", "config|missingok", ""),
+				mkc("for-x-last.conf", "config|noreplace", x))
+			s.SetOverride(x, &gen.Over{Umask: 0o027})
+			cfg, err := parseYAML(s.YAML(), nil)
+			if err != nil {
+				run.Inconclusive(err.Error())
+				continue
+			}
+			cs := mkCase(s)
+			for _, f := range []string{x, y, x} {
+				run.Case(fmt.Sprintf("one-parsed-config|override=%s|then=%s|building=%s", x, y, f), true)
+				info, err := infoFor(&cfg, f)
+				if err != nil {
+					run.Inconclusive(err.Error())
+					continue
+				}
+				res := packageInfo(f, info)
+				if res.Err != nil || res.Panic != "" {
+					run.Violate("C08/"+f+"/build-error", map[string]any{"one_parsed_config": true, "override_block_for": x, "obtained_in_order": []string{x, y, x}, "error": fmt.Sprint(res.Err, ev.Short(res.Panic, 300))})
+					continue
+				}
+				p := dec.Decode(f, res.Bytes, false)
+				if len(p.Errs) > 0 {
+					run.Violate("C08/"+f+"/undecodable", map[string]any{"errors": p.Errs})
+					continue
+				}
+				plan := cs.Plan(f)
+				for pth, pe := range plan {
+					if pe.Implied {
+						continue
+					}
+					if p.Find(pth) == nil {
+						run.Violate("C08/"+f+"/entry-presence/after-settings-for-another-format", map[string]any{"path": pth, "override_block_for": x, "obtained_in_order": []string{x, y, x}})
+					}
+				}
+				for _, pr := range typingProblems(f, p, plan, &checked) {
+					run.Violate("C08/"+f+"/"+pr.kind, map[string]any{"one_parsed_config": true, "override_block_for": x, "detail": pr.detail})
+				}
+			}
+		}
+	}
 	// mixed generated lists
 	forCases(run, caseCfg{
 		prop: "C08", n: nmixed,
